@@ -471,6 +471,12 @@ func grpcGet() []*entry {
 			p.extra = []int{1, 7, 100, 5000}[rng.IntN(4)]
 			return p
 		}},
+		{name: "error-after-last-byte", casOnly: true, build: func(rg *rig, o *object, rng *rand.Rand) *plan {
+			// everything delivered, then the stream ends with an error status
+			p := base("after-last", "short-error", "status-after-complete-data", "get", "deliver").exp(expAny, expAny)
+			p.end, p.code = "abort", codes.Unavailable
+			return p
+		}},
 		{name: "fetch-wrong-size", casOnly: true, build: func(rg *rig, o *object, rng *rand.Rand) *plan {
 			// only the size-unknown path asks FetchBlob
 			p := base("size-metadata", "other-size", "fetchblob", "get", "fetch").exp(expHit, expNoHit)
